@@ -58,6 +58,13 @@ fn main() {
             let quiet = args.iter().any(|a| a == "--quiet");
             std::process::exit(replay_file(Path::new(&args[2]), quiet));
         }
+        "fuzz" => {
+            // developer command: adlt-verif fuzz <target> <secs> [jobs]
+            let work = work_dir().join(format!("fuzzdev_{}", std::process::id()));
+            let _ = std::fs::create_dir_all(&work);
+            let r = adlt_verif::fuzzing::campaign(&args[2], seed_from_env(), args[3].parse().unwrap(), args.get(4).and_then(|s| s.parse().ok()).unwrap_or(8), &work);
+            println!("{}", serde_json::to_string_pretty(&r).unwrap());
+        }
         "run" => {
             let prop = args[2].clone();
             let tier = parse_tier(args.get(3).map(|s| s.as_str()).unwrap_or("quick"));
@@ -238,6 +245,56 @@ fn run(prop: &str, tier: Tier, seed: u64) -> i32 {
             summary.infra_errors.push(format!("no result for sub check {}", s.name()));
         }
     }
+    // 2b. coverage guided campaigns (thorough tier only)
+    let mut fuzz_results = vec![];
+    if tier == Tier::Thorough && std::env::var("VERIF_NO_FUZZ").is_err() {
+        let secs: u64 = std::env::var("VERIF_FUZZ_SECS").ok().and_then(|s| s.parse().ok()).unwrap_or(420);
+        let work = work_dir().join(format!("fuzz_{}_{}", prop, std::process::id()));
+        let _ = std::fs::create_dir_all(&work);
+        for (p, target) in adlt_verif::fuzzing::TARGETS {
+            if *p != prop {
+                continue;
+            }
+            let r = adlt_verif::fuzzing::campaign(target, seed, secs, 14, &work);
+            for (ai, art) in r.artifacts.iter().enumerate() {
+                if ai >= 5 {
+                    break;
+                }
+                // turn the artifact into a replay file and re-check it with the deterministic harness
+                let data = std::fs::read(art).unwrap_or_default();
+                let rf = ReplayFile {
+                    property: prop.to_string(),
+                    subcheck: format!("fuzz_{}", target),
+                    seed,
+                    index: 1_000_000 + ai as u64,
+                    message: format!("libFuzzer artifact {}", art),
+                    case: serde_json::to_value(&data).unwrap(),
+                    finding: None,
+                };
+                let rp = write_replay(&rf);
+                let st = std::process::Command::new("timeout")
+                    .arg("600")
+                    .arg(std::env::current_exe().unwrap())
+                    .arg("replay")
+                    .arg(&rp)
+                    .arg("--quiet")
+                    .env("RAYON_NUM_THREADS", "1")
+                    .env("TZ", "UTC")
+                    .stdout(std::process::Stdio::null())
+                    .stderr(std::process::Stdio::null())
+                    .status();
+                match st {
+                    Ok(st) if st.code() == Some(0) || st.code() == Some(124) || st.code() == Some(2) => summary.infra_errors.push(format!("libFuzzer artifact {} of target {} does not reproduce in the deterministic harness (kept as {})", art, target, rp.display())),
+                    _ => summary.violations.push((format!("libFuzzer target {} found a failing input ({} bytes)", target, data.len()), rp)),
+                }
+            }
+            if r.executions == 0 {
+                summary.infra_errors.push(format!("fuzz campaign {}: {}", target, r.note));
+            }
+            fuzz_results.push(serde_json::to_value(&r).unwrap());
+        }
+        let _ = std::fs::remove_dir_all(&work);
+    }
     let wall = t0.elapsed().as_secs_f64();
     write_evidence(
         prop,
@@ -247,7 +304,7 @@ fn run(prop: &str, tier: Tier, seed: u64) -> i32 {
         &def.assumptions,
         &summary,
         wall,
-        serde_json::json!({"finding_reproducers_replayed": regression_replays}),
+        serde_json::json!({"finding_reproducers_replayed": regression_replays, "libfuzzer_campaigns": fuzz_results}),
     );
     for l in &summary.known_lines {
         println!("{}", l);
